@@ -28,6 +28,7 @@ import (
 	"github.com/rulego/streamsql/utils/cast"
 
 	"github.com/rulego/streamsql/types"
+	"github.com/rulego/streamsql/utils/verifhook"
 )
 
 // debugLogSliding logs debug information only when EnableDebug is true
@@ -170,6 +171,7 @@ func NewSlidingWindow(config types.WindowConfig) (*SlidingWindow, error) {
 
 // Add adds data to the sliding window
 func (sw *SlidingWindow) Add(data any) {
+	verifhook.Point("sliding.add")
 	// Lock to ensure thread safety
 	sw.mu.Lock()
 	defer sw.mu.Unlock()
@@ -229,6 +231,7 @@ func (sw *SlidingWindow) Add(data any) {
 		Timestamp: eventTime,
 	}
 	sw.data = append(sw.data, row)
+	verifhook.Observe("window.add.ts", data, eventTime)
 	debugLogSliding("Add: added data, eventTime=%v, totalData=%d, currentSlot=[%v, %v), inWindow=%v",
 		eventTime.UnixMilli(), len(sw.data),
 		sw.currentSlot.Start.UnixMilli(), sw.currentSlot.End.UnixMilli(),
@@ -590,6 +593,7 @@ func (sw *SlidingWindow) triggerSpecificWindowLocked(slot *types.TimeSlot) {
 
 	// Release lock before calling callback and sending to channel to avoid blocking
 	sw.mu.Unlock()
+	verifhook.Point("sliding.trigger.unlocked")
 
 	if callback != nil {
 		callback(resultData)
@@ -930,6 +934,7 @@ func (sw *SlidingWindow) triggerLateUpdateLocked(slot *types.TimeSlot) {
 
 	// Release lock before calling callback and sending to channel to avoid blocking
 	sw.mu.Unlock()
+	verifhook.Point("sliding.late.unlocked")
 
 	if callback != nil {
 		callback(resultData)
